@@ -98,3 +98,17 @@ Example C11_nonvacuous :
         (2, [0; 1]); (2, [2; 2]); (2, [0; 3]); (0, [1; 3; 1; 2; 0]); (0, [2; 3]); (0, [0; 3]) ],
       [0; 1; 3; 2]).
 Proof. vm_compute. reflexivity. Qed.
+
+(* a module WITHOUT any export (1: side effects only; its export map stays empty) imported twice, the first time by a
+   type-only import - `import type T from m` is the names form with no value name, `Import 1 (Names [])`, and still
+   executes module_entry: module 1 runs exactly once, at that first import, before module 0 continues *)
+Definition effects_only : project :=
+  {| entry := 0;
+     modules := [ (0, [Effect 1; Import 1 (Names []); Effect 2; Import 2 Whole; Effect 3]);
+                  (1, [Effect 1; Effect 3]);
+                  (2, [Effect 1; Import 1 Whole; Effect 3]) ] |}.
+
+Example C11_exportless_and_type_only :
+  summary (run 3 effects_only) =
+  (0, [ (0, [0; 1]); (1, [0; 1]); (1, [0; 3]); (0, [0; 2]); (2, [0; 1]); (2, [0; 3]); (0, [0; 3]) ], [0; 1; 2]).
+Proof. vm_compute. reflexivity. Qed.
